@@ -113,7 +113,7 @@ PROPS = {
                      "MantraDex.C14Lock.single_asset_locked_equals_two_step_partial", "MantraDex.C14Lock.single_asset_locked_equals_two_step_fields",
                      "MantraDex.C14Lock.single_asset_locks_for_sender"],
         "extra_modules": ["MantraDex.Properties.C14Eq", "MantraDex.Properties.C15Sys", "MantraDex.Properties.C14Lock"],
-        "streams": {"pm_hist": (160, 4000), "twin": (120, 3000), "faults": (45, 1500)},
+        "streams": {"pm_hist": (160, 4000), "twin": (120, 3000), "faults": (45, 1500), "fm_hist": (120, 3000)},
         "what": "single-asset deposits are refused on empty / larger pools; neither path can lock LP for someone other than the sender and an existing "
                 "position must belong to the receiver; first leg = simulate, buffer (expected balances, options), swap exactly floor(a/2) via a "
                 "reply-on-success self-call; reply = both balances must match, buffer cleared, deposit of half + simulated proceeds with the recorded "
